@@ -5,6 +5,7 @@ CONSTANTS
   MaxFrames = 3
   MaxCancels = 3
   Fixes = {}
+  CfgSet <- ConfigsX
   MaxSteps = 12
 SPECIFICATION GenSpec
 CONSTRAINT GenConstraint
